@@ -1034,6 +1034,10 @@ def _parse_query_string(v):
         qs = qs + '&' + f
     if not v.concrete:
         v.ctx.ghost.update(qs=qs, fields=fields, max_pieces=3 if n == 1 else 2)
+    for ch in '+%':
+        # '+' / '%' occur in the query string iff they occur in the name or the value of some field ('&' and '=' are other characters)
+        parts = [p for f in fields for p in first_eq_split(f)]
+        v.check('lemma-escape-characters-of-the-query-string-are-those-of-its-names-and-values', Iff(contains(qs, ch), Or(*[contains(p, ch) for p in parts])))
     if v.choose(2, 'options-by-keyword'):
         out = v.call(qs, keep_blank=keep_blank, csv=csv)
     else:
